@@ -8,6 +8,7 @@ require (
 	github.com/bufbuild/protocompile v0.14.1
 	github.com/pentops/j5 v0.0.0
 	github.com/pentops/log.go v0.0.0-20250304233315-e0210b7a6dc3
+	github.com/shopspring/decimal v1.4.0
 	google.golang.org/protobuf v1.36.6
 )
 
@@ -24,7 +25,6 @@ require (
 	github.com/mattn/go-colorable v0.1.14 // indirect
 	github.com/mattn/go-isatty v0.0.20 // indirect
 	github.com/pentops/golib v0.0.0-20250107012216-1b5307b3bfe0 // indirect
-	github.com/shopspring/decimal v1.4.0 // indirect
 	github.com/stoewer/go-strcase v1.3.0 // indirect
 	golang.org/x/exp v0.0.0-20250305212735-054e65f0b394 // indirect
 	golang.org/x/sync v0.12.0 // indirect
